@@ -137,6 +137,39 @@ def abstract_call(mod, cls, name):
     return out[0]
 
 
+def protocol_call(mod, base, hook, impls, fmt, argtypes, ret):
+    """Call of the protocol method `self.<hook>(..)`: positional arguments are bound by position,
+    keyword arguments by the parameter names of the declaration in `base`; every implementing class
+    must then declare the same names in the same order (Python binds keywords per override)."""
+    decl = _method(mod, base, hook)
+    names = [a.arg for a in decl.args.args if a.arg != "self"]
+    if len(names) != len(argtypes) or decl.args.vararg or decl.args.kwarg or decl.args.kwonlyargs:
+        raise Unsupported("%s.%s: %d parameters expected" % (base, hook, len(argtypes)))
+
+    def h(tr, e, env):
+        if len(e.args) + len(e.keywords) != len(names) or any(k.arg is None for k in e.keywords):
+            raise Unsupported("arity of " + ast.unparse(e))
+        actual = list(e.args)
+        if e.keywords:
+            for c in impls:
+                m = _method(mod, c, hook)
+                if m is None or [a.arg for a in m.args.args if a.arg != "self"] != names:
+                    raise Unsupported("keyword call of %s: %s declares other names" % (hook, c))
+            kw = {k.arg: k.value for k in e.keywords}
+            rest = names[len(e.args):]
+            if sorted(kw) != sorted(rest):
+                raise Unsupported("keywords of " + ast.unparse(e))
+            # evaluation order of the arguments does not matter: they are pure expressions here
+            actual += [kw[n] for n in rest]
+        args = []
+        for x, want in zip(actual, argtypes):
+            t, ty = tr.expr(x, env)
+            tr.need(ty, want, e)
+            args.append(t)
+        return fmt % tuple(args), ret
+    return h
+
+
 def positional(mod, path, spec):
     """Parameters of a protocol method bound by POSITION (their names are private)."""
     fn = find(mod, path)
@@ -168,9 +201,12 @@ def roots(mod):
     windows_hook = abstract_call(mod, "BaseWindowSplitter", split_hook)          # `_split_windows`
     calls = dict(CALLS)
     calls["len"] = _len
-    calls["self." + windows_hook] = prim("(split_windows %s %s %s %s %s)",
-                                         ["Z", "Z", "Z", "Z", "L"], "LP")
-    calls["self." + split_hook] = prim("(inner_split %s)", ["Y"], "RLP")
+    calls["self." + windows_hook] = protocol_call(
+        mod, "BaseWindowSplitter", windows_hook, ["SlidingWindowSplitter", "ExpandingWindowSplitter"],
+        "(split_windows %s %s %s %s %s)", ["Z", "Z", "Z", "Z", "L"], "LP")
+    calls["self." + split_hook] = protocol_call(
+        mod, "BaseSplitter", split_hook,
+        ["BaseWindowSplitter", "CutoffSplitter", "SingleWindowSplitter"], "(inner_split %s)", ["Y"], "RLP")
     # get_n_splits is `len(self.get_cutoffs(y))`: a raising call inside an expression
     calls["self.get_cutoffs"] = prim("(gen_window_cutoffs wl step iw sww fh %s)", ["Y"], "RL")
     funcs = [
